@@ -89,8 +89,8 @@ type Result struct {
 	// back by their factor (only those that divide exactly), judged like Real
 	ScaledBad     []Outcome `json:"scaledBad"`
 	ScaledInexact bool      `json:"scaledInexact"`
-	Text     string  `json:"text"`
-	Again    bool    `json:"againSame"`
+	Text          string    `json:"text"`
+	Again         bool      `json:"againSame"`
 }
 
 // ---- rendering ------------------------------------------------------------
